@@ -381,7 +381,7 @@ def render_fn(fs, out, unit, log):
             # `[label:] for PAT in EXPR ` -> `{ let mut it = IntoIterator::into_iter(EXPR); [label:] loop `
             ins(ls, f"{{ let mut {itn} = IntoIterator::into_iter({expr}); {label}loop ", ro, dl=lb - ls)
             # invariants for this loop come from a `loop K` part (inserted at body_start with prio=1, i.e. after this)
-            ins(lb, f"{{ match {itn}.next() {{ None => break, Some({pat}) => ", ro, prio=3)
+            ins(lb, f"{{ match {itn}.next() {{ None => break, Some({pat}) => ", ro, prio=0)  # after the `loop K` text (prio=1): `loop invariant.. {{ match ..`
             ins(le, " } } }", ro, prio=-2)
             log["rewrites"].append({"rule": "R6", "fn": fs.path, "loop": k, "iter": expr})
         elif kind == "closure":
